@@ -289,8 +289,11 @@ func mavenConventional(s string) bool {
 	}
 	q := strings.ToLower(s[i:j])
 	if j == len(s) {
-		// bare single-letter aliases and ga/final/release in the middle are exotic
+		// bare single-letter aliases are exotic
 		return len(q) > 1
+	}
+	if q == "ga" || q == "final" || q == "release" {
+		return false // ga/final/release in the middle is exotic
 	}
 	if len(q) == 1 && !(q == "a" || q == "b" || q == "m") {
 		// unknown single letter followed by a number: fine (unknown qualifier)
@@ -309,7 +312,57 @@ func c12Pair[V univers.Version[V], VR univers.VersionRange[V]](e univers.Ecosyst
 	vv.Assume(ea == nil)
 	vb, eb := e.NewVersion(b)
 	vv.Assume(eb == nil)
+	vv.Reached()
 	vv.Assume(mavenConventional(a))
 	vv.Assume(mavenConventional(b))
+	vv.Assume(!vv.Known("KF-C12-maven-flat-tokens", orb(orb(c12Outside(a), c12Outside(b)), c12Mixed(a, b))))
 	vv.Assert(sign(va.Compare(vb)) == mavenCompare(a, b), "C12: order differs from Maven's ComparableVersion")
+}
+
+// c12Outside: shapes whose Maven order depends on list nesting, which go-univers' flat token
+// list cannot express: a number after '-' (1-1 < 1.0.1 < 1.1) and a qualifier followed by a
+// number (1.0-rc1, 1.0-RC-2). (inputs only)
+func c12Outside(s string) bool {
+	sawLetter := false
+	for i := 0; i < len(s); i++ {
+		c := s[i]
+		if isAlpha(c) {
+			sawLetter = true
+		}
+		if isDig(c) && (sawLetter || (i > 0 && s[i-1] == '-')) {
+			return true
+		}
+	}
+	return false
+}
+
+// numComponents counts the leading dot-separated numeric components; hasQual reports a qualifier.
+func c12Shape(s string) (int, bool) {
+	n := 0
+	i := 0
+	for {
+		j := digitsAt(s, i)
+		if j == i {
+			break
+		}
+		n++
+		i = j
+		if i+1 < len(s) && s[i] == '.' && isDig(s[i+1]) {
+			i++
+			continue
+		}
+		break
+	}
+	return n, i < len(s)
+}
+
+// c12Mixed: a qualified version against a version with a different number of numeric components
+// (or against an unqualified one with more components): the answer depends on list nesting.
+func c12Mixed(a, b string) bool {
+	na, qa := c12Shape(a)
+	nb, qb := c12Shape(b)
+	if !qa && !qb {
+		return false
+	}
+	return na != nb
 }
